@@ -10,14 +10,14 @@ import numpy as np
 from .poly import Poly, nu, seq_code, SymbolicBranch
 from .universe import Universe, FlodymArray, Dimension, DimensionSet
 
-S_NUM = 7.0  # numeric value of "the plain number"
+S_NUM = 2.5  # numeric value of "the plain number": deliberately NOT integral (integer-typed arrays must not truncate it)
 
 
 def gen_val(g):
     """Generic non-zero valuation for numeric instantiation of symbolic vectors."""
     k, t = g
     if abs(k) == 9:
-        return Fraction(7)
+        return Fraction(5, 2)
     return Fraction(((abs(k) * 131 + seq_code(t) * 17 + 7) % 23) + 2)
 
 
@@ -157,7 +157,7 @@ def run_vector(vec):
     if op in NUM_ONLY:
         runs = [("num", "C"), ("num", "F")]
     else:
-        runs = [("sym", "C"), ("num", "C"), ("num", "F")]
+        runs = [("sym", "C"), ("num", "C"), ("num", "F"), ("num", "I")]     # I: values stored with an INTEGER dtype
     for mode, layout in runs:
         Poly.seed = cfg["seed"] if op in ORD_OPS else None
         if op in NUM_ONLY:
@@ -171,10 +171,13 @@ def run_vector(vec):
         else:
             xval = yval = val = gen_val
         try:
-            x = U.array(cfg["xd"], U.gen_values(1, cfg["xd"], mode, xval, layout), name="x")
+            def vals(k, ds, v):
+                a = U.gen_values(k, ds, mode, v, "C" if layout == "I" else layout)
+                return a.astype(np.int64) if layout == "I" else a
+            x = U.array(cfg["xd"], vals(1, cfg["xd"], xval), name="x")
             y = None
             if op in ("add", "sub", "mul", "div", "min", "max", "pow"):
-                y = U.array(cfg["yd"], U.gen_values(2, cfg["yd"], mode, yval, layout), name="y")
+                y = U.array(cfg["yd"], vals(2, cfg["yd"], yval), name="y")
             S = Poly.gen(9, U.zero_tuple()) if mode == "sym" else S_NUM
             sx = snapshot(x)
             sy = snapshot(y) if y is not None else None
